@@ -486,13 +486,22 @@ def pickArm (s : Sys) : List Arm → Option Arm
   | [] => none
   | a :: rest => if s.armEnabled a then some a else pickArm s rest
 
+/-- a notify / timer arm that finds a command queued does nothing but step aside: the notify arm hands its
+    wake-up back, the timer arm skips its tick (fixes 5a41097 + 33a6e3d) -/
+def bounce (s : Sys) : Arm → Sys
+  | .timer => { s with timerDue := false }
+  | _ => s
+
 /-- Poll the IO loop: it iterates until no arm is ready. Where several arms are ready `select!` picks at random;
-    `prio` says which order is meant (the harness re-runs the case until the real loop took that order). -/
+    `prio` says which order is meant (the harness re-runs the case until the real loop took that order). With a
+    command queued, a notify / timer arm that wins steps aside and the command arm runs next. -/
 def ioRunN : Nat → Sys → List Arm → Sys
   | 0, s, _ => s
   | n + 1, s, prio =>
     match s.pickArm prio with
-    | some a => ioRunN n (s.ioArm a) prio
+    | some a =>
+      if a ≠ .cmd ∧ s.queue ≠ [] then ioRunN n ((s.bounce a).ioArm .cmd) prio
+      else ioRunN n (s.ioArm a) prio
     | none => s
 
 def ioRun (s : Sys) (prio : List Arm) : Sys := ioRunN 8 s prio
@@ -525,10 +534,12 @@ def reopen (s : Sys) (power : Bool) : Sys :=
   match s.file with
   | none =>
     let img := if power then s.store.d else s.store.v
-    { buf := Buf.load img, store := { v := img, d := s.store.d }, keepBoundary := s.keepBoundary }
+    -- `new` fsyncs what it finds before reporting it durable (fix 466194e)
+    { buf := Buf.load img, store := { v := img, d := if img.lastIndex > 0 then img else s.store.d },
+      keepBoundary := s.keepBoundary }
   | some f =>
     let (ents, f') := f.reload
-    let img : Img := { ents := ents, boundary := none }
+    let img : Img := { ents := ents, boundary := s.store.v.boundary }  -- purge_boundary.bin (fix aab5543)
     { buf := Buf.load img, store := { v := img, d := s.store.d }, keepBoundary := s.keepBoundary, file := some f' }
 
 end Sys
